@@ -5,8 +5,8 @@ import families, report, vlib, emit, parsecheck, lr1, common_parse as cp
 def run(tier, seed):
     d = {g.name: g for g in families.g_dir() + families.g_err() + families.t_sets()}
     R = report.Run('C07', tier, seed); cases = []
-    if tier == 'quick': plan = [('etf', [2], 1, 1), ('lalr', [2], 0, 0), ('eqeq', [2], 1, 0)]
-    else: plan = [(n, [1, 2, 3], 1, 1) for n in ('etf', 'lalr', 'mutual', 'rrece', 'pal', 'er2', 'er4', 'eqeq', 'abcd', 'num')]
+    if tier == 'quick': plan = [('etf', [2], 1, 1), ('nrun3', [2], 0, 0), ('eqeq', [2], 1, 0)]
+    else: plan = [(n, [1, 2, 3], 1, 1) for n in ('etf', 'lalr', 'nrun3', 'mutual', 'rrece', 'pal', 'er2', 'er4', 'eqeq', 'abcd', 'num')]
     outside = ['the compilers\' constant evaluators are not code in /repo and cannot be encoded: the solver decides UB-freedom of the whole parse path for every input <= LEN, which by [expr.const] implies the '
                'compile-time parse is a valid constant expression with the same (deterministic) result', 'evaluator step/depth limits; MSVC',
                'string_buffer / string_view_buffer use std::vector-backed stacks: the heap model is out of reach (a 2-byte query exhausted 20 GB in the SAT solver); buffer independence is claimed for cstring_buffer vs a user buffer that is a slice of larger storage (fixed-size stacks)',
